@@ -225,6 +225,10 @@ func TinySpec(r *hx.Rng, k SpecKnobs) *common.Spec {
 	if k.FastEth1 {
 		sp.EPOCHS_PER_ETH1_VOTING_PERIOD = 1
 	}
+	if k.ForkBias == "late" && sp.MAX_SEED_LOOKAHEAD > 2 {
+		// an exit initiated in phase0 can then take effect exactly at ALTAIR_FORK_EPOCH+1
+		sp.MAX_SEED_LOOKAHEAD = common.Epoch(pick(r, 1, 2))
+	}
 	if k.OddVectors {
 		spe := uint64(sp.SLOTS_PER_EPOCH)
 		sp.SLOTS_PER_HISTORICAL_ROOT = common.Slot(spe * uint64(pick(r, 3, 5, 6)))
